@@ -311,6 +311,7 @@ package limiter
 //@   ensures[C02] first_try: ncalls("core.Limiter.Acquire") == 1 && callrecv("core.Limiter.Acquire", 0) == l.delegate && callarg("core.Limiter.Acquire", 0, 0) == ctx
 //@   ensures[C02] immediate_grant: callres("core.Limiter.Acquire", 0, 1) && callres("core.Limiter.Acquire", 0, 0) != nil ==> result == callres("core.Limiter.Acquire", 0, 0) && ncalls("(*limiter.queue).push") == 0
 //@   ensures[C12] full_backlog_refuses_at_once: !(callres("core.Limiter.Acquire", 0, 1) && callres("core.Limiter.Acquire", 0, 0) != nil) && callres("(*limiter.queue).len", 0, 0) >= l.maxBacklogSize ==> result == nil && ncalls("(*limiter.queue).push") == 0 && ncalls("select") == 0
+//@   ensures[C12,C19] waits_when_below_bound: !(callres("core.Limiter.Acquire", 0, 1) && callres("core.Limiter.Acquire", 0, 0) != nil) && callres("(*limiter.queue).len", 0, 0) < l.maxBacklogSize ==> ncalls("(*limiter.queue).push") == 1
 //@   ensures[C12] bound_read_after_the_delegate_refused: ncalls("(*limiter.queue).len") == 1 ==> callpos("core.Limiter.Acquire", 0) < callpos("(*limiter.queue).len", 0)
 //@   ensures[C12] waits_only_below_bound: ncalls("(*limiter.queue).push") == 1 ==> callres("(*limiter.queue).len", 0, 0) < l.maxBacklogSize && callarg("(*limiter.queue).push", 0, 0) == ctx
 //@   ensures[C13] timer_iff_timeout: ncalls("(*limiter.queue).push") == 1 ==> ncalls("time.NewTimer") == ite(l.maxBacklogTimeout > 0, 1, 0) && (l.maxBacklogTimeout > 0 ==> callarg("time.NewTimer", 0, 0) == l.maxBacklogTimeout)
